@@ -40,9 +40,12 @@ def rule_adapters(rep: Report, repo: Repo) -> None:
     rep.check(helpers <= base and not over, 'C19.ADAPTERS', 'packed-byte-helpers', f'in base: {sorted(helpers & base)}; overridden: {sorted(over)}', DM)
     rd = repo.func(DM, 'DeviceMemory.read_data_byte')
     wd = repo.func(DM, 'DeviceMemory.write_data_byte')
-    r_ok = [norm(r.value) for r in ast.walk(rd) if isinstance(r, ast.Return)] == ['self.read_word(self._jump_word_address(op_bit_address)) >> self._data_bit_offset & 255']
-    w_txt = norm(wd)
-    w_ok = 'byte_mask = 255 << self._data_bit_offset' in w_txt and 'self.write_word(jump_word_address, jump_word & ~byte_mask | (value & 255) << self._data_bit_offset)' in w_txt
+    # named temporaries are substituted before the formulas are compared
+    r_body = [b for b in inlined_statements(rd) if not b.startswith('self._require_byte_capable_width')]
+    r_ok = r_body == ['return self.read_word(self._jump_word_address(op_bit_address)) >> self._data_bit_offset & 255']
+    w_body = [b for b in inlined_statements(wd) if not b.startswith('self._require_byte_capable_width')]
+    JW = 'self._jump_word_address(op_bit_address)'
+    w_ok = w_body == [f'self.write_word({JW}, self.read_word({JW}) & ~(255 << self._data_bit_offset) | (value & 255) << self._data_bit_offset)']
     rep.check(r_ok and w_ok, 'C19.ADAPTERS', 'packed-byte-formula', f'read ok={r_ok}, write ok={w_ok}', f'{DM}:{rd.lineno}',
               expected='bits #w..#w+7 of the jump word; write preserves the other bits')
 
